@@ -132,10 +132,30 @@ func Guard(f func() *Violation) (v *Violation) {
 	defer func() {
 		if r := recover(); r != nil {
 			st := string(debug.Stack())
-			v = &Violation{Sig: "panic|" + HavocFrame(st), Msg: fmt.Sprintf("panic: %v\n%s", r, trimStack(st))}
+			v = &Violation{Sig: "panic|" + HavocFrame(st) + "|" + panicKind(r), Msg: fmt.Sprintf("panic: %v\n%s", r, trimStack(st))}
 		}
 	}()
 	return f()
+}
+
+// panicKind abstracts a panic value into a short stable class (digits and addresses removed).
+func panicKind(r interface{}) string {
+	s := fmt.Sprint(r)
+	var b strings.Builder
+	for _, c := range s {
+		switch {
+		case c >= '0' && c <= '9':
+		case c == '[' || c == ']':
+		case c == ' ':
+			b.WriteByte('-')
+		default:
+			b.WriteRune(c)
+		}
+		if b.Len() > 60 {
+			break
+		}
+	}
+	return strings.Trim(b.String(), "-")
 }
 
 // HavocFrame extracts the innermost function of module Havoc from a stack dump.
